@@ -4,15 +4,24 @@ package main
 
 import (
 	"bufio"
+	"bytes"
 	"context"
+	"errors"
 	"fmt"
 	"os"
+	"path"
+	"runtime/debug"
 	"strconv"
 	"strings"
+	"sync"
+	"time"
+
+	bolt "go.etcd.io/bbolt"
 
 	"github.com/drand/drand/v2/common"
 	"github.com/drand/drand/v2/internal/chain"
 	"github.com/drand/drand/v2/internal/chain/boltdb"
+	chainerrors "github.com/drand/drand/v2/internal/chain/errors"
 	"github.com/drand/drand/v2/internal/chain/memdb"
 )
 
@@ -57,14 +66,14 @@ func parseBeacon(r, s, p string) *common.Beacon {
 func cursorToken(ctx context.Context, st chain.Store, c chain.Cursor, t string, allowMut bool) string {
 	switch {
 	case t == "first":
-		return showBeacon(c.First(ctx))
+		return showRead(c.First(ctx))
 	case t == "next":
-		return showBeacon(c.Next(ctx))
+		return showRead(c.Next(ctx))
 	case t == "last":
-		return showBeacon(c.Last(ctx))
+		return showRead(c.Last(ctx))
 	case strings.HasPrefix(t, "seek:"):
 		r, _ := strconv.ParseUint(t[5:], 10, 64)
-		return showBeacon(c.Seek(ctx, r))
+		return showRead(c.Seek(ctx, r))
 	case allowMut && strings.HasPrefix(t, "put:"):
 		f := strings.Split(t, ":")
 		if err := st.Put(ctx, parseBeacon(f[1], f[2], f[3])); err != nil {
@@ -81,56 +90,325 @@ func cursorToken(ctx context.Context, st chain.Store, c chain.Cursor, t string, 
 	return "bad-op"
 }
 
+// storeErr maps the errors of the back-ends to the small enum of the line protocol.
+func storeErr(err error) string {
+	switch {
+	case errors.Is(err, context.Canceled):
+		return "cancelled"
+	case errors.Is(err, bolt.ErrDatabaseNotOpen):
+		return "err:closed"
+	}
+	return "err:" + strings.ReplaceAll(err.Error(), "\n", " ")
+}
+
+func showRead(b *common.Beacon, err error) string {
+	if err != nil && !errors.Is(err, chainerrors.ErrNoBeaconStored) {
+		return storeErr(err)
+	}
+	return showBeacon(b, err)
+}
+
+func errOrOk(err error) string {
+	if err != nil {
+		return storeErr(err)
+	}
+	return "ok"
+}
+
+// heldValue is a beacon some caller of the store still uses: the pointer the read returned, and a private copy of what
+// it looked like at that moment.
+type heldValue struct {
+	live *common.Beacon
+	snap common.Beacon
+}
+
+func cloneBeacon(b *common.Beacon) common.Beacon {
+	return common.Beacon{Round: b.Round, Signature: append([]byte{}, b.Signature...), PreviousSig: append([]byte{}, b.PreviousSig...)}
+}
+
+// signalCtx tells when the callee looked at the context for the first time (for a bolt Put: its entry check).
+type signalCtx struct {
+	context.Context
+	once    sync.Once
+	entered chan struct{}
+}
+
+func (s *signalCtx) Done() <-chan struct{} {
+	ch := s.Context.Done()
+	s.once.Do(func() { close(s.entered) })
+	return ch
+}
+
+// holdWriter blocks the next writer of the base store: bbolt's single write transaction (bolt), the store's write lock
+// (memdb). The returned function lets it go.
+func holdWriter(base chain.Store) (func(), error) {
+	if m, ok := base.(*memdb.Store); ok {
+		return memdb.VerifLockWrite(m), nil
+	}
+	rel, err := boltdb.VerifBeginWrite(base)
+	if err != nil {
+		return nil, err
+	}
+	return func() { _ = rel() }, nil
+}
+
+// putUnderCancel runs put(ctx) with a context that is cancelled `before` the call, `during` the wait for the store's
+// writer (the Put is queued behind another writer, its context goes away, then the other writer finishes), or `after`
+// the Put returned.
+func putUnderCancel(when string, parent context.Context, base chain.Store, put func(ctx context.Context) error) (error, string) {
+	cctx, cancel := context.WithCancel(parent)
+	defer cancel()
+	switch when {
+	case "before":
+		cancel()
+		return put(cctx), ""
+	case "after":
+		err := put(cctx)
+		cancel()
+		return err, ""
+	case "during":
+		release, err := holdWriter(base)
+		if err != nil {
+			return err, ""
+		}
+		sctx := &signalCtx{Context: cctx, entered: make(chan struct{})}
+		done := make(chan error, 1)
+		go func() { done <- put(sctx) }()
+		// the Put went past its entry check (memdb never looks at the context: a short wait instead) …
+		select {
+		case <-sctx.entered:
+		case err := <-done:
+			release()
+			return err, "early"
+		case <-time.After(20 * time.Millisecond):
+		}
+		// … and is now queued on the writer
+		select {
+		case err := <-done:
+			release()
+			return err, "early"
+		case <-time.After(3 * time.Millisecond):
+		}
+		cancel()
+		release()
+		select {
+		case err := <-done:
+			return err, ""
+		case <-time.After(60 * time.Second):
+			return errors.New("verif: Put did not return after the writer was released"), "hang"
+		}
+	}
+	return errors.New("verif: unknown cancellation point " + when), ""
+}
+
 func storeEngine(args []string, in *bufio.Scanner, out *bufio.Writer) {
 	backend := args[0]
 	st, ctx, closer := openStore(backend)
 	defer func() { closer() }()
 	isMem := strings.HasPrefix(backend, "mem")
+	slots := map[string]*heldValue{}
+	dead, cancelNow := context.WithCancel(ctx)
+	cancelNow()
+
+	var run func(ctx context.Context, f []string) string
+	readReq := func(ctx context.Context, f []string) (b *common.Beacon, res string, ok bool) {
+		switch {
+		case len(f) == 2 && f[0] == "get":
+			r, _ := strconv.ParseUint(f[1], 10, 64)
+			b, err := st.Get(ctx, r)
+			if err != nil {
+				return nil, showRead(b, err), true
+			}
+			return b, showRead(b, err), true
+		case len(f) == 1 && f[0] == "last":
+			b, err := st.Last(ctx)
+			if err != nil {
+				return nil, showRead(b, err), true
+			}
+			return b, showRead(b, err), true
+		case len(f) >= 2 && f[0] == "cur":
+			var outs []string
+			var lastB *common.Beacon
+			called := false
+			err := st.Cursor(ctx, func(ctx context.Context, c chain.Cursor) error {
+				called = true
+				for _, t := range f[1:] {
+					var b *common.Beacon
+					var err error
+					switch {
+					case t == "first":
+						b, err = c.First(ctx)
+					case t == "next":
+						b, err = c.Next(ctx)
+					case t == "last":
+						b, err = c.Last(ctx)
+					case strings.HasPrefix(t, "seek:"):
+						r, _ := strconv.ParseUint(t[5:], 10, 64)
+						b, err = c.Seek(ctx, r)
+					default:
+						outs = append(outs, "bad-op")
+						lastB = nil
+						continue
+					}
+					outs = append(outs, showRead(b, err))
+					lastB = nil
+					if err == nil {
+						lastB = b
+					}
+				}
+				return nil
+			})
+			if !called && err != nil {
+				return nil, storeErr(err), true
+			}
+			return lastB, strings.Join(outs, "|"), true
+		}
+		return nil, "bad-op", false
+	}
+	run = func(ctx context.Context, f []string) string {
+		switch f[0] {
+		case "put":
+			return errOrOk(st.Put(ctx, parseBeacon(f[1], f[2], f[3])))
+		case "get":
+			r, _ := strconv.ParseUint(f[1], 10, 64)
+			return showRead(st.Get(ctx, r))
+		case "last":
+			return showRead(st.Last(ctx))
+		case "del":
+			r, _ := strconv.ParseUint(f[1], 10, 64)
+			return errOrOk(st.Del(ctx, r))
+		case "len":
+			n, err := st.Len(ctx)
+			if err != nil {
+				return storeErr(err)
+			}
+			return fmt.Sprint(n)
+		case "cur":
+			var outs []string
+			called := false
+			cctx, cancelSession := context.WithCancel(ctx)
+			defer cancelSession()
+			err := st.Cursor(cctx, func(ctx context.Context, c chain.Cursor) error {
+				called = true
+				for _, t := range f[1:] {
+					if t == "cancel" { // the context of the session goes away while the cursor is open
+						cancelSession()
+						outs = append(outs, "ok")
+						continue
+					}
+					outs = append(outs, cursorToken(ctx, st, c, t, isMem))
+				}
+				return nil
+			})
+			if !called && err != nil {
+				return storeErr(err)
+			}
+			return strings.Join(outs, "|")
+		case "hold": // hold <slot> get r | last | cur <read-only moves…>: a caller keeps the value the read returned
+			if len(f) < 3 {
+				return "bad-op"
+			}
+			b, res, ok := readReq(ctx, f[2:])
+			if !ok {
+				return "bad-op"
+			}
+			if b == nil {
+				slots[f[1]] = nil
+			} else {
+				slots[f[1]] = &heldValue{live: b, snap: cloneBeacon(b)}
+			}
+			return res
+		case "cmp": // cmp <slot>: is the value the caller holds still what the read returned?
+			h := slots[f[1]]
+			if h == nil {
+				return "empty"
+			}
+			old := debug.SetPanicOnFault(true) // a slice into an unmapped bbolt page: a panic, not a crash of the harness
+			defer debug.SetPanicOnFault(old)
+			now := cloneBeacon(h.live)
+			if now.Round == h.snap.Round && bytes.Equal(now.Signature, h.snap.Signature) && bytes.Equal(now.PreviousSig, h.snap.PreviousSig) {
+				return "same " + showBeacon(&h.snap, nil)
+			}
+			return fmt.Sprintf("changed was=%s now=%s", strings.ReplaceAll(showBeacon(&h.snap, nil), " ", ":"), strings.ReplaceAll(showBeacon(&now, nil), " ", ":"))
+		case "cx": // cx <op…>: the op is called with a context that is already cancelled
+			if len(f) < 2 {
+				return "bad-op"
+			}
+			switch f[1] {
+			case "hold", "cx", "qput", "cmp", "reset", "close":
+				return "bad-op"
+			}
+			return run(dead, f[1:])
+		case "qput": // qput <before|during|after> r sig prev: Put under a context cancelled at that point; then is it readable?
+			b := parseBeacon(f[2], f[3], f[4])
+			err, note := putUnderCancel(f[1], ctx, st, func(c context.Context) error { return st.Put(c, b) })
+			if note == "hang" {
+				return "hang"
+			}
+			r, _ := strconv.ParseUint(f[2], 10, 64)
+			return fmt.Sprintf("%s get=%s", errOrOk(err), showRead(st.Get(ctx, r)))
+		case "saveto": // SaveTo into a file, opened as a store of the same format and read back record by record
+			var buf bytes.Buffer
+			if err := st.SaveTo(ctx, &buf); err != nil {
+				if strings.Contains(err.Error(), "not implemented") {
+					return "unsupported"
+				}
+				return storeErr(err)
+			}
+			dir := tmpDir()
+			defer os.RemoveAll(dir)
+			if err := os.WriteFile(path.Join(dir, boltdb.BoltFileName), buf.Bytes(), 0o600); err != nil {
+				return "err:" + err.Error()
+			}
+			octx := context.Background()
+			if backend == "bolt" {
+				octx = boltdb.IsATest(octx)
+			}
+			cp, err := boltdb.NewBoltStore(octx, quietLogger(), dir)
+			if err != nil {
+				return storeErr(err)
+			}
+			defer cp.Close()
+			if boltdb.VerifIsTrimmed(cp) != (backend != "bolt") {
+				return "err:the copy opened in the other format"
+			}
+			var outs []string
+			err = cp.Cursor(octx, func(ctx context.Context, c chain.Cursor) error {
+				for b, err := c.First(ctx); err == nil; b, err = c.Next(ctx) {
+					outs = append(outs, showBeacon(b, nil))
+				}
+				return nil
+			})
+			if err != nil {
+				return storeErr(err)
+			}
+			n, _ := cp.Len(octx)
+			body := "-"
+			if len(outs) > 0 {
+				body = strings.Join(outs, "|")
+			}
+			return fmt.Sprintf("n=%d %s", n, body)
+		case "close":
+			if err := st.Close(); err != nil {
+				return storeErr(err)
+			}
+			return "ok"
+		case "reset":
+			slots = map[string]*heldValue{}
+			closer()
+			st, ctx, closer = openStore(backend)
+			dead, cancelNow = context.WithCancel(ctx)
+			cancelNow()
+			return "ok"
+		}
+		return "bad-op"
+	}
 	for in.Scan() {
 		f := fields(in.Text())
 		if len(f) == 0 {
 			continue
 		}
-		res := safely(func() string {
-			switch f[0] {
-			case "put":
-				if err := st.Put(ctx, parseBeacon(f[1], f[2], f[3])); err != nil {
-					return "err:" + err.Error()
-				}
-				return "ok"
-			case "get":
-				r, _ := strconv.ParseUint(f[1], 10, 64)
-				return showBeacon(st.Get(ctx, r))
-			case "last":
-				return showBeacon(st.Last(ctx))
-			case "del":
-				r, _ := strconv.ParseUint(f[1], 10, 64)
-				if err := st.Del(ctx, r); err != nil {
-					return "err:" + err.Error()
-				}
-				return "ok"
-			case "len":
-				n, err := st.Len(ctx)
-				if err != nil {
-					return "err:" + err.Error()
-				}
-				return fmt.Sprint(n)
-			case "cur":
-				var outs []string
-				_ = st.Cursor(ctx, func(ctx context.Context, c chain.Cursor) error {
-					for _, t := range f[1:] {
-						outs = append(outs, cursorToken(ctx, st, c, t, isMem))
-					}
-					return nil
-				})
-				return strings.Join(outs, "|")
-			case "reset":
-				closer()
-				st, ctx, closer = openStore(backend)
-				return "ok"
-			}
-			return "bad-op"
-		})
+		res := safely(func() string { return run(ctx, f) })
 		fmt.Fprintln(out, res)
 	}
 }
